@@ -178,6 +178,8 @@ class FnModel:
                 return "wid"
             q = callee.get("qual", "")
             return q + str(name) + "(" + ",".join(self.origin(a, depth + 1) for a in args) + ")"
+        if k == "ParenListExpr":
+            return "ctor(" + ",".join(self.origin(a, depth + 1) for a in kids(n)) + ")"
         if k == "CXXUnresolvedConstructExpr" or k == "CXXConstructExpr" or k == "CXXTemporaryObjectExpr":
             c = kids(n)
             if len(c) == 1:
